@@ -3,6 +3,7 @@ package mp4
 import (
 	"fmt"
 	"io"
+	"strings"
 
 	"github.com/Eyevinn/mp4ff/bits"
 )
@@ -94,6 +95,21 @@ func containerSize(children []Box) uint64 {
 	return boxHeaderSize + contentSize
 }
 
+// childrenSizes lists type and size of the first children for an error message.
+// The list is capped so that the message stays linear in the number of children.
+func childrenSizes(children []Box) string {
+	const maxListed = 32
+	var sb strings.Builder
+	for i, c := range children {
+		if i == maxListed {
+			fmt.Fprintf(&sb, "... (%d children)", len(children))
+			break
+		}
+		fmt.Fprintf(&sb, "%s:%d ", c.Type(), c.Size())
+	}
+	return sb.String()
+}
+
 // DecodeContainerChildren decodes a container box
 func DecodeContainerChildren(hdr BoxHeader, startPos, endPos uint64, r io.Reader) ([]Box, error) {
 	children := make([]Box, 0, 8)
@@ -103,11 +119,7 @@ func DecodeContainerChildren(hdr BoxHeader, startPos, endPos uint64, r io.Reader
 		if pos == endPos {
 			return children, nil
 		} else if pos > endPos {
-			msg := ""
-			for _, c := range children {
-				msg += fmt.Sprintf("%s:%d ", c.Type(), c.Size())
-			}
-			return nil, fmt.Errorf("non-matching children box sizes, parentSize=%d, %s", endPos-startPos, msg)
+			return nil, fmt.Errorf("non-matching children box sizes, parentSize=%d, %s", endPos-startPos, childrenSizes(children))
 		}
 		child, err := DecodeBox(pos, r)
 		if err == io.EOF {
@@ -128,11 +140,7 @@ func DecodeContainerChildrenSR(hdr BoxHeader, startPos, endPos uint64, sr bits.S
 	initPos := sr.GetPos()
 	for {
 		if pos > endPos {
-			msg := ""
-			for _, c := range children {
-				msg += fmt.Sprintf("%s:%d ", c.Type(), c.Size())
-			}
-			return nil, fmt.Errorf("non-matching children box sizes, parentSize=%d, %s", endPos-startPos, msg)
+			return nil, fmt.Errorf("non-matching children box sizes, parentSize=%d, %s", endPos-startPos, childrenSizes(children))
 		}
 		if pos == endPos {
 			break
